@@ -46,6 +46,9 @@ func hexOfFloat(f float64) string {
 	return fmt.Sprintf("%016x", math.Float64bits(f))
 }
 
+// Field* option values of the running case, by specification
+var optCache map[string]ucfg.Option
+
 // configs shared between several places of the running case ({"shared": name, "c": {...}})
 var sharedCfgs map[string]*ucfg.Config
 
@@ -372,7 +375,27 @@ func buildOpts(v interface{}) []ucfg.Option {
 			opts = append(opts, ucfg.AppendValues)
 		case "Prepend":
 			opts = append(opts, ucfg.PrependValues)
+		case "StructTag":
+			opts = append(opts, ucfg.StructTag(o["v"].(string)))
+		case "ValidatorTag":
+			opts = append(opts, ucfg.ValidatorTag(o["v"].(string)))
 		case "FieldMerge", "FieldReplace", "FieldAppend", "FieldPrepend":
+			// one Option value per distinct specification within a case: programs keep such options in variables and pass
+			// the same value to several calls
+			key := mustJSON(o)
+			if cached, ok := optCache[key]; ok {
+				opts = append(opts, cached)
+				continue
+			}
+			before := len(opts)
+			defer func(key string, before int) {
+				if len(opts) > before {
+					if optCache == nil {
+						optCache = map[string]ucfg.Option{}
+					}
+					optCache[key] = opts[before]
+				}
+			}(key, before)
 			var names []string
 			for _, n := range o["v"].([]interface{}) {
 				names = append(names, n.(string))
